@@ -213,7 +213,7 @@ def run(ctx):
         gomp = None
         ctx.notes["libgomp"] = "not loadable; thread count left to the runtime"
     orig_pool = multiprocessing.Pool
-    N = 30 if ctx.quick else 400
+    N = ctx.scale(60, 600)
     for it in range(N):
         n = rng.choice([2, 3, 4, 6, 9, 14])
         nd = rng.choice([0, 0, 1, 2])
